@@ -407,9 +407,23 @@ func (f *Func) reachTarget(
 	// Waypoint usage it happens here.
 	var unsatisfied []*Value
 
+	// The functions that are currently being reached (this target and any
+	// further up the stack) can't be used to satisfy this target: they
+	// depend on it. We search for paths in a copy of the graph without them.
+	// Detecting such a function on a path only after the shortest path was
+	// chosen is not enough: the discount for same-named values makes cycles
+	// free, so a path through the target itself can tie with a perfectly good
+	// direct path and the choice between them is down to map ordering.
+	searchG := g.Copy()
+	for id := range state.Reaching {
+		if v := searchG.Vertex(id); v != nil {
+			searchG.Remove(v)
+		}
+	}
+
 	paths := make([][]graph.Vertex, len(vertexT))
 	for i, current := range vertexT {
-		currentG := g
+		currentG := searchG
 
 		// For value vertices, we discount any other values that share the
 		// same name. This lets our shortest paths prefer matching through
@@ -432,6 +446,20 @@ func (f *Func) reachTarget(
 		// With the latest shortest paths, let's add the path for this target.
 		paths[i] = currentG.EdgeToPath(current, edgeTo)
 		log.Trace("path for target", "target", current, "path", paths[i])
+
+		// If the path doesn't start at the root then this argument can only
+		// be reached through a function that is waiting for it (we removed
+		// those above): it is unsatisfied.
+		if _, ok := paths[i][0].(*rootVertex); !ok {
+			valueable, ok := current.(valueConverter)
+			if !ok {
+				// This shouldn't be possible
+				panic(fmt.Sprintf("argmapper graph node doesn't implement value(): %T", current))
+			}
+
+			unsatisfied = append(unsatisfied, valueable.value())
+			continue
+		}
 
 		// Get the input
 		input := paths[i][0]
